@@ -66,15 +66,19 @@ theorem request_answered_with_truncated_id (c : Cfg) (s : Sess) (msg : ClientMsg
 /-- The serviceable case in full: the handler body runs once, at the target (`target`: the front
 itself iff the route names the front's own type, otherwise the live instance of that type which
 the route function selects from the session), and the single response carries exactly what that
-handler completed with — unless a forwarded handler takes longer than the 30 s request timeout,
-in which case the single response is the timeout error. -/
+handler completed with (`wireLocal`/`wireBack` are the identity on data and errors; they only differ
+for a result the client serializer cannot marshal, see `unserialisable_result`) — unless a forwarded
+handler takes longer than the 30 s request timeout, in which case the single response is the
+timeout error. -/
 theorem request_served_by_target (c : Cfg) (s : Sess) (msg : ClientMsg) (hid : msg.id ≠ 0) (hlt : msg.id < idWrap)
     (svc g m : String) (v : Nat) (b : Beh) (h : served c s msg = some (svc, g, m, v, b)) :
     target c s (splitClientRoute msg.route).1 = some svc ∧
     serve c s msg =
       if (splitClientRoute msg.route).1 ≠ c.frontType ∧ requestTimeout < (behResult svc g m v b).1 then
         [.invoke svc g m v, .respond timeoutMs s.sid msg.id .error]
-      else [.invoke svc g m v, .respond (behResult svc g m v b).1 s.sid msg.id (behResult svc g m v b).2] := by
+      else [.invoke svc g m v, .respond (behResult svc g m v b).1 s.sid msg.id
+              (if (splitClientRoute msg.route).1 = c.frontType then wireLocal (behResult svc g m v b).2
+               else wireBack (behResult svc g m v b).2)] := by
   refine ⟨?_, by rw [serve_eq_process c s msg hlt]; exact process_served c s msg hid svc g m v b h⟩
   unfold served at h
   simp only at h
@@ -128,7 +132,10 @@ theorem response_origin_is_target (c : Cfg) (s : Sess) (msg : ClientMsg) (hid : 
     split at hmem
     · simp [responses] at hmem
     · simp only [responses, List.mem_singleton, Prod.mk.injEq] at hmem
-      cases b <;> simp [behResult] at hmem <;> (rw [ht]; simp [hmem.2.2.2.1])
+      obtain ⟨_, _, _, hres⟩ := hmem
+      rw [ht]
+      cases b <;> simp only [behResult] at hres <;> split at hres <;>
+        simp [wireLocal, wireBack] at hres <;> simp [hres.1]
 
 /-- The front answers itself exactly when the route names its own type (the front is registered
 in the directory under its own type, as `InitSelf`/`UpdateClusterTopology` make it). -/
@@ -224,6 +231,20 @@ theorem handler_failure_gets_error (c : Cfg) (s : Sess) (msg : ClientMsg) (hid :
     serve c s msg = [.invoke svc g m v, .respond 0 s.sid msg.id .error] := by
   rw [(request_served_by_target c s msg hid hlt svc g m v b h).2]
   rcases hb with rfl | rfl <;> simp [behResult, requestTimeout]
+
+/-- A handler that completes with a value the client serializer refuses (e.g. a NaN float under
+json): exactly one response in both cases; the front's own completion turns it into an error
+response (`Process` checks the `Marshal` error), whereas `ProcessForwardMsg` IGNORES the `Marshal`
+error and the client of a forwarded request receives a success with an empty body — that is what
+the code does, so "handler failure ⇒ error response" holds for `fail`/`panic`
+(`handler_failure_gets_error`) and for front-local unserialisable results only. -/
+theorem unserialisable_result (c : Cfg) (s : Sess) (msg : ClientMsg) (hid : msg.id ≠ 0) (hlt : msg.id < idWrap)
+    (svc g m : String) (v : Nat) (h : served c s msg = some (svc, g, m, v, .unser)) :
+    serve c s msg = [.invoke svc g m v, .respond 0 s.sid msg.id
+      (if (splitClientRoute msg.route).1 = c.frontType then .error else .blank)] := by
+  rw [(request_served_by_target c s msg hid hlt svc g m v .unser h).2]
+  by_cases ht : (splitClientRoute msg.route).1 = c.frontType <;>
+    simp [behResult, requestTimeout, ht, wireLocal, wireBack]
 
 /-! ## (3) notifications -/
 
@@ -324,6 +345,10 @@ example : c0.dir c0.frontName = some ⟨"gate", true⟩ := by decide
 example : (run fixed c0 St.init [.req s1 ⟨5, "chat.zoo.slow", .valid 1⟩, .req s0 ⟨5, "gate.zoo.late", .valid 2⟩,
     .adv 5000, .req s1 ⟨6, "chat.zoo.late", .valid 3⟩, .adv 45000]).out =
     [(7, 5, .data "chat-1" "zoo" "slow" 1), (8, 5, .data "gate-1" "zoo" "late" 2), (7, 6, .error)] := by decide
+
+example : serve c0 s1 ⟨5, "gate.zoo.nan", .valid 3⟩ = [.invoke "gate-1" "zoo" "nan" 3, .respond 0 7 5 .error] := by decide
+example : serve c0 s1 ⟨5, "chat.zoo.nan", .valid 3⟩ = [.invoke "chat-1" "zoo" "nan" 3, .respond 0 7 5 .blank] := by decide
+example := unserialisable_result c0 s1 ⟨5, "chat.zoo.nan", .valid 3⟩ (by decide) (by decide) "chat-1" "zoo" "nan" 3 (by decide)
 
 -- the conditional theorems instantiated (their hypotheses are satisfiable)
 example := request_served_by_target c0 s1 ⟨5, "chat.zoo.echo", .valid 3⟩ (by decide) (by decide) "chat-1" "zoo" "echo" 3 .ok (by decide)
